@@ -306,7 +306,12 @@ func c14Eval(f []string) (string, []string) {
 			if th.get() == c14InTransport {
 				label = "fwd:" + strconv.Itoa(int(atomic.LoadInt32(&th.host)))
 			} else {
+				// the slot was lost and the request selected again at once: it waits at the barrier again, or,
+				// with no backend available, it has ended (the model accounts for that in the same action)
 				label = "lost:" + strconv.Itoa(th.chosen)
+				if th.get() == c14Done {
+					th.reported = true
+				}
 			}
 		case c14InTransport:
 			h := int(atomic.LoadInt32(&th.host))
